@@ -186,7 +186,8 @@ def _build_tools(repo, out, variant):
                                               if "/libasn1common/" in s_]
         link.append((["gcc"] + flags + xobjs[name] + lobjs + ["-o", dst, "-lm"], None))
     _cc_many(link)
-    shutil.rmtree(obj, ignore_errors=True)
+    if variant != "cov":
+        shutil.rmtree(obj, ignore_errors=True)
 
 
 SKEL_EXCLUDE = ("converter-example.c",)
@@ -225,6 +226,7 @@ class Toolchain:
         self.repo = repo
 
     def tool(self, name, variant="asan"):
+        variant = os.environ.get("VERIF_FORCE_TOOL_VARIANT") or variant     # coverage experiments only (vf/covmap.py)
         p = os.path.join(self.root, "bin", "%s.%s" % (name, variant))
         if not os.path.exists(p):
             with _lock(self.root):
@@ -358,6 +360,8 @@ def compile_module(tc, asn_paths, outdir, options=(), variant="asan", driver="vd
     """Run asn1c on the module(s), compile emitted type files and link with
     driver + prebuilt skeleton lib. Returns (exe_path, asn1c_result)."""
     os.makedirs(outdir, exist_ok=True)
+    if variant == "asan" and os.environ.get("VERIF_FORCE_VARIANT"):
+        variant = os.environ["VERIF_FORCE_VARIANT"]                         # coverage experiments only (vf/covmap.py)
     a = tc.tool("asn1c", asn1c_variant)
     cmd = [a, "-S", os.path.join(tc.repo, "skeletons"), "-pdu=all"] + list(options) + \
           ["-D", outdir] + list(asn_paths)
